@@ -121,7 +121,6 @@ def compute_air_connection(matrix: jax.Array) -> jax.Array:
         jax.Array: Boolean array marking air regions connected to boundaries.
     """
     inv_matrix = jnp.invert(matrix)
-    n = max([matrix.shape[0], matrix.shape[1], matrix.shape[2]])
     n4_kernel = jnp.asarray(
         [
             [0, 1, 0],
@@ -138,7 +137,7 @@ def compute_air_connection(matrix: jax.Array) -> jax.Array:
     connected = connected.at[:, -1, :].set(True)
     connected = connected & inv_matrix
 
-    def _body_fn(_, arr):
+    def _body_fn(arr):
         arr = seperated_3d_dilation(
             arr_3d=arr,
             kernel_xy=n4_kernel,
@@ -148,7 +147,7 @@ def compute_air_connection(matrix: jax.Array) -> jax.Array:
         )
         return arr
 
-    connected = jax.lax.fori_loop(0, n, _body_fn, connected)
+    connected = _iterate_until_stable(_body_fn, connected)
 
     return connected
 
@@ -172,11 +171,6 @@ def compute_polymer_connection(
     Returns:
         jax.Array: Boolean array marking connected polymer regions.
     """
-    n = max([matrix.shape[0], matrix.shape[1], matrix.shape[2]])
-    padded = False
-    if matrix.shape[2] == 1:
-        padded = True
-        matrix = jnp.pad(matrix, pad_width=((0, 0), (0, 0), (1, 1)))
     n4_kernel = jnp.asarray(
         [
             [0, 1, 0],
@@ -191,7 +185,7 @@ def compute_polymer_connection(
     else:
         connected = connected.at[connected_slice].set(True)
 
-    def _body_fn(_, arr):
+    def _body_fn(arr):
         arr = seperated_3d_dilation(
             arr_3d=arr,
             kernel_xy=n4_kernel,
@@ -201,10 +195,8 @@ def compute_polymer_connection(
         )
         return arr
 
-    connected = jax.lax.fori_loop(0, n, _body_fn, connected)
+    connected = _iterate_until_stable(_body_fn, connected)
 
-    if padded:
-        connected = connected[..., 1:2]
     return connected
 
 
@@ -229,8 +221,6 @@ def connect_slice(
     Returns:
         tuple[jax.Array, jax.Array]: Tuple of (modified_middle_slice, modified_upper_slice) with connected regions.
     """
-    n = max(lower_slice.shape[0], lower_slice.shape[1])
-
     # define kernels
     n4_kernel = jnp.asarray(
         [
@@ -262,9 +252,10 @@ def connect_slice(
     connected_points = upper_slice & middle_slice
     connected_points = connected_points | upper_save_points
 
-    for _ in range(n):
-        connected_points = dilate_jax(connected_points, n4_kernel)
-        connected_points = connected_points & upper_slice
+    def _spread_in_upper(points: jax.Array, upper: jax.Array) -> jax.Array:
+        return _iterate_until_stable(lambda p: dilate_jax(p, n4_kernel) & upper, points)
+
+    connected_points = _spread_in_upper(connected_points, upper_slice)
     upper_air = jnp.invert(upper_slice)
     non_connected_points = jnp.invert(upper_air | connected_points)
 
@@ -275,9 +266,7 @@ def connect_slice(
     # update matrix, non-connected and connected points
     middle_slice = middle_slice | connectable_by_lower
     connected_points = connected_points | connectable_by_lower
-    for _ in range(n):
-        connected_points = dilate_jax(connected_points, n4_kernel)
-        connected_points = connected_points & upper_slice
+    connected_points = _spread_in_upper(connected_points, upper_slice)
     non_connected_points = jnp.invert(upper_air | connected_points)
 
     # then try to connect by adding polymer in upper array
@@ -288,15 +277,34 @@ def connect_slice(
     valid_connection_points = jnp.sum(valid_connection_points, axis=0).astype(bool)
     # update matrix, non-connected and connected points
     upper_slice = upper_slice | valid_connection_points
-    for _ in range(n):
-        connected_points = dilate_jax(connected_points, n4_kernel)
-        connected_points = connected_points & upper_slice
+    connected_points = _spread_in_upper(connected_points, upper_slice)
     non_connected_points = jnp.invert(upper_air | connected_points)
 
     # delete all non-connected
     upper_slice = upper_slice & jnp.invert(non_connected_points)
 
     return middle_slice, upper_slice
+
+
+def _iterate_until_stable(fn, arr: jax.Array) -> jax.Array:
+    """Applies fn repeatedly until the array does not change anymore (fixpoint of a flood fill)."""
+
+    def _cond_fn(state):
+        prev, cur = state
+        return jnp.any(prev != cur)
+
+    def _while_body_fn(state):
+        _, cur = state
+        return cur, fn(cur)
+
+    _, result = jax.lax.while_loop(_cond_fn, _while_body_fn, (arr, fn(arr)))
+    return result
+
+
+def _convolve2d_same(image: jax.Array, kernel: jax.Array) -> jax.Array:
+    """Zero-padded 'same' convolution which also works if the image is smaller than the kernel in one axis."""
+    pad_width = [(k // 2, k // 2) for k in kernel.shape]
+    return jax.scipy.signal.convolve2d(jnp.pad(image, pad_width), kernel, mode="valid")
 
 
 def dilate_jax(image: jax.Array, kernel: jax.Array) -> jax.Array:
@@ -309,7 +317,7 @@ def dilate_jax(image: jax.Array, kernel: jax.Array) -> jax.Array:
     Returns:
         jax.Array: Dilated binary array.
     """
-    conv = jax.scipy.signal.convolve2d(image, kernel, mode="same", boundary="fill")
+    conv = _convolve2d_same(image, kernel)
     binary_arr = jnp.asarray(conv, dtype=bool)
     return binary_arr
 
@@ -354,7 +362,7 @@ def seperated_3d_dilation(
     """
 
     def convolve_partial(image: jax.Array, kernel: jax.Array):
-        return jax.scipy.signal.convolve2d(image, kernel, mode="same", boundary="fill")
+        return _convolve2d_same(image, kernel)
 
     arr_3d = jax.vmap(convolve_partial, in_axes=(2, None), out_axes=(2))(arr_3d, kernel_xy)
     arr_3d = jnp.asarray(arr_3d, dtype=bool)
